@@ -57,7 +57,8 @@ def install(ctx, repo, probes):
         ctx.target("mode/" + m)
     ctx.target("reader/0", "reader/1", "reader/2", "reader/3",
                "own-format/0-digits", "own-format/1-digits",
-               "own-format/2-digits", "own-format/3-digits")
+               "own-format/2-digits", "own-format/3-digits",
+               "own-format/variant-1", "own-format/variant-2")
     ctx.target("expanded-year", "negative-year", "zero-hour-negative-minutes",
                "custom/literal-zone", "custom/placeholder-zone", "custom/Z",
                "custom/basic", "custom/ext", "custom/cross-representation")
@@ -127,8 +128,14 @@ def _run_case(ctx, repo, case, MODE):
         prob = _fields_close(p, q)
         if prob is None and not R.tp_valid(MODE, q):
             prob = "parsed point invalid"
-        if prob is None and R.tp_is_integral(p) and (q == p) is not True:
+        kq0 = R.tp_key(q)
+        if prob is None and R.tp_is_integral(p) and (
+                (q == p) is not True or (p == q) is not True):
             prob = "parsed point does not compare equal"
+        if prob is None and (R.tp_key(p) != key or R.tp_key(q) != kq0 or
+                             str(p) != s):
+            prob = "comparing the two points changed one of them: now " \
+                "%r / %r" % (R.tp_key(p), R.tp_key(q))
         if prob is None and s2 != s:
             prob = "str is not a fixpoint: %r then %r" % (s, s2)
         if prob is None:
@@ -171,22 +178,36 @@ def _run_case(ctx, repo, case, MODE):
         if case["op"] == "own-format":
             # the point carries the format itself: str(p) must be what the
             # dumper agreed on p's number of year digits prints
-            own = repo.tp(dict(case["p"], dump_format=fmt))
+            # a complete point may also carry a format meant for truncated
+            # points: it does not apply to it
+            variant = case.get("variant", 0)
+            extra = {"dump_format": fmt}
+            if variant == 1:
+                extra["truncated_dump_format"] = "--MM-DDThh:mm"
+            elif variant == 2:
+                extra = {"truncated_dump_format": "-YYMMDDThhmm"}
+            own = repo.tp(dict(case["p"], **extra))
             s = str(own)
             ctx.cls("own-format/%d-digits" % nd)
+            ctx.cls("own-format/variant-%d" % variant)
             ctx.in_oracle += 1
             try:
                 try:
-                    ref_s = ctx.dumpers[nd].dump(p, fmt)
+                    ref_s = ctx.dumpers[nd].dump(p, fmt) if variant != 2 \
+                        else str(p)
                 except Exception:
                     ref_s = None
             finally:
                 ctx.in_oracle -= 1
             if ref_s is not None and ref_s != s:
                 ctx.violation("own-format.differs", "str() of %r carrying "
-                              "dump format %r is %r, the dumper for %d "
-                              "expanded digits prints %r" % (
-                                  key, fmt, s, nd, ref_s), p=key, fmt=fmt)
+                              "%r is %r, expected %r (dumper for %d expanded "
+                              "digits)" % (key, extra, s, ref_s, nd), p=key,
+                              fmt=fmt)
+                return
+            if variant == 2:
+                # printed in the default form: the rest is the default
+                # round trip, decided by the "default" cases
                 return
         else:
             s = ctx.dumpers[nd].dump(p, fmt)
@@ -234,8 +255,20 @@ def _run_case(ctx, repo, case, MODE):
         prob = "instants differ by %s s" % float(iq - ip)
     elif R.tp_rep(q) != spec["rep"]:
         prob = "parsed representation %s" % R.tp_rep(q)
-    elif not fractional and (q == p) is not True:
+    elif not fractional and ((q == p) is not True or
+                             (p == q) is not True):
         prob = "parsed point does not compare equal"
+    if prob is None and case["op"] == "own-format":
+        # the point that carries the format, compared both ways round, and
+        # looked at again afterwards
+        kq0 = R.tp_key(q)
+        if not fractional and ((own == q) is not True or
+                               (q == own) is not True):
+            prob = "parsed point does not compare equal to the point that " \
+                "carries the format"
+        elif R.tp_key(own) != key or R.tp_key(q) != kq0 or str(own) != s:
+            prob = "comparing the two points changed one of them: now %r " \
+                "/ %r, str %r" % (R.tp_key(own), R.tp_key(q), str(own))
     if prob:
         ctx.violation("custom.wrong", "dump(%r, %r) = %r parsed back as %r: "
                       "%s" % (key, fmt, s, R.tp_key(q), prob), p=key,
@@ -369,7 +402,8 @@ def workload(ctx, repo):
             if spec["nexp"] == nd or (not nd and "+X" not in fmt):
                 spec["nexp"] = nd
                 case = {"op": "own-format", "p": kw, "fmt": fmt,
-                        "spec": spec, "mode": mode, "reader": k % 4}
+                        "spec": spec, "mode": mode, "reader": k % 4,
+                        "variant": (k // 7) % 3}
                 ctx.case = case
                 ctx.ev("cases.own-format")
                 run_case(ctx, repo, case)
